@@ -125,10 +125,10 @@ Proof.
   - destruct k; [| apply IH; assumption].
     unfold do_wait. destruct (nth_error (cells w) c) as [cx |]; [| exact Hw].
     destruct (cur w) as [[| t] |]; try exact Hw.
-    + destruct (cell_test cx); [exact Hw |].
+    + destruct (cell_err cx); [exact Hw |]. destruct (cell_test cx); [exact Hw |].
       destruct (tplayer (S (length (rts w))) w t); [| exact Hw].
       destruct (cell_wait n cx). simpl. eapply holds_same_rts; [| exact Hw]. reflexivity.
-    + destruct (cell_test cx); exact Hw.
+    + destruct (cell_err cx); [exact Hw |]. destruct (cell_test cx); exact Hw.
   - apply IH; [exact AR |]. destruct (nth_error (cells w) c); [eapply holds_same_rts; [| exact Hw]; reflexivity | exact Hw].
   - apply IH; [exact AR |]. unfold log_self. destruct (nth_error (rts w) self); [eapply holds_same_rts; [| exact Hw]; reflexivity | exact Hw].
   - destruct k; [| apply IH; assumption].
@@ -208,7 +208,7 @@ Proof.
     assert (H1 : holds (set_main_secs t (set_queue q w))) by (eapply holds_same_rts; [| exact Hw]; reflexivity).
     pose proof (next_stab fuel i VAwake _ H1) as H2.
     destruct (next_ cfg defs fuel i VAwake (set_main_secs t (set_queue q w))) as [w2 o]. simpl in H2.
-    destruct o as [[| d | | | |] | e]; exact H2.
+    destruct o as [[| d | | | | | d | | |] | e]; exact H2.
 Qed.
 
 Lemma run_stab : forall fuel ops w, forallb op_allowed ops = true -> holds w ->
@@ -273,7 +273,7 @@ Proof.
     destruct (Nat.eq_dec i r) as [Q | Q].
     + subst i. unfold getr in E. rewrite E in Y. inversion Y; subst y. rewrite S1. exact KEEP.
     + destruct (st y); try exact KEEP; apply SCHED; apply OTHER; exact Q.
-  - unfold do_signal. destruct (nth_error (cells w) c); [| exact KEEP]. destruct (cell_signal c0). apply SCHED. exact KEEP.
+  - unfold do_signal. destruct (nth_error (cells w) c); [| exact KEEP]. destruct (cell_err c0); [exact KEEP |]. destruct (cell_signal c0). apply SCHED. exact KEEP.
   - unfold do_unhang. destruct (nth_error (cells w) c); [| exact KEEP]. destruct (cell_unhang c0). apply SCHED. exact KEEP.
   - unfold do_settest. destruct (nth_error (cells w) c); exact KEEP.
   - unfold do_flowset. destruct (nth_error (cells w) c); [| exact KEEP].
@@ -305,7 +305,7 @@ Proof.
     destruct (st y); simpl; try exact KEEP; apply OTHER; auto.
   - unfold do_play. destruct (nth_error (rts w) i) as [y |] eqn:Y; [| exact KEEP].
     destruct (st y); try exact KEEP; apply SCHED; apply OTHER; auto.
-  - unfold do_signal. destruct (nth_error (cells w) c); [| exact KEEP]. destruct (cell_signal c0). apply SCHED. exact KEEP.
+  - unfold do_signal. destruct (nth_error (cells w) c); [| exact KEEP]. destruct (cell_err c0); [exact KEEP |]. destruct (cell_signal c0). apply SCHED. exact KEEP.
   - unfold do_unhang. destruct (nth_error (cells w) c); [| exact KEEP]. destruct (cell_unhang c0). apply SCHED. exact KEEP.
   - unfold do_settest. destruct (nth_error (cells w) c); exact KEEP.
   - unfold do_flowset. destruct (nth_error (cells w) c); [| exact KEEP].
